@@ -488,15 +488,22 @@ pub fn run_dir_case(desc: &Value, ctx: &Ctx, opts: &VerifyOpts) -> CaseOut {
             create_mem(&case).map(|(i, b)| (i, Some(b)))
         }
     });
-    let unrepresentable = jstr(desc, "expect") == "unrepresentable";
+    // classification by the model (the generator's "expect" tag of the limit cases is only a label)
+    let models: Vec<Vec<EntryModel>> = (0..case.stores.len()).map(|si| expand(&case, si)).collect();
+    let (repr, repr_why) = representable(&case, &models);
+    let unrepresentable = repr == Repr::No;
     if desc.get("expect").is_some() {
         out.obs.inc(&format!("limit_cases.{}", jstr(desc, "expect")));
         out.nontrivial = true;
     }
+    if repr != Repr::Yes {
+        out.obs.inc(&format!("model_says.{repr:?}"));
+    }
     let (inst, bytes) = match created {
-        Err(_) | Ok(Err(_)) if unrepresentable => {
+        Err(_) | Ok(Err(_)) if repr != Repr::Yes => {
             // a value that cannot be represented makes creation fail: the accepted outcome
             out.obs.inc("unrepresentable_inputs_refused");
+            let _ = &repr_why;
             return out;
         }
         Err(p) => {
@@ -533,8 +540,8 @@ pub fn run_dir_case(desc: &Value, ctx: &Ctx, opts: &VerifyOpts) -> CaseOut {
             let first = out.viols.first().map(|v| v.what.clone()).unwrap_or_default();
             out.viols.clear();
             out.violate(
-                json!({"kind": "unrepresentable-accepted", "limit": util::normalize_msg(jstr(desc, "limit")), "profile": profile()}),
-                format!("{}: an input that cannot be represented ({}) was accepted by the creator and is not read back as written: {first}", opts.prop, jstr(desc, "limit")),
+                json!({"kind": "unrepresentable-accepted", "limit": util::normalize_msg(&repr_why), "profile": profile()}),
+                format!("{}: an input that cannot be represented ({}) was accepted by the creator and is not read back as written: {first}", opts.prop, repr_why),
                 json!({}),
             );
         } else {
